@@ -501,6 +501,65 @@ pub fn run(ctx: &Ctx) -> i32 {
         total.exhaustive.push("per encoder: every BMP scalar (and every 0x101st astral scalar) directly after and directly before each of 3-6 state-setting contexts (two-byte character, katakana, Roman-state character, ASCII, unmappable), UTF-8 and UTF-16 sources, raw and replacement, slice and Vec methods, end of stream on the data call or on an empty call".into());
     }
 
+    // (a3) aliases: an astral character and the BMP character with the same low 16 bits (and the
+    // same low 8 / 12 bits of another plane) in one stream, both orders, adjacent or with ASCII or a
+    // common character between them - an encoder that remembers anything about the previous lookup
+    // must key it by the whole scalar
+    if !fw::should_stop() {
+        let e = super::ench::encoder_encodings();
+        let st = par_run(ctx, e.len(), |part, st| {
+            let enc = e[part];
+            let algo = enc_algo_for(enc);
+            let mut astral: Vec<u32> = Vec::new();
+            match algo {
+                EncAlgo::Big5 => {
+                    for c in crate::golden::golden().big5.iter() {
+                        if let crate::golden::Cell::One(x) = c {
+                            if *x >= 0x10000 {
+                                astral.push(*x);
+                            }
+                        }
+                    }
+                }
+                EncAlgo::Gb18030 | EncAlgo::Utf8 => {
+                    astral.extend((0x10000u32..0x110000).step_by(0x3F1));
+                    astral.extend_from_slice(&[0x10000, 0x1FFFF, 0x20000, 0x2A6D6, 0x10FFFF]);
+                }
+                _ => return,
+            }
+            astral.sort();
+            astral.dedup();
+            let common = hist_enc::alphabet(enc).into_iter().find(|c| *c >= 0x3000 && *c < 0xA000 && model_enc::mappable(algo, *c)).unwrap_or(0x4E00);
+            for &a in &astral {
+                if fw::should_stop() {
+                    return;
+                }
+                for b in [a & 0xFFFF, (a & 0xFFFF) | 0x10000, a ^ 0x30000, (a & 0xFFF) | 0x4000] {
+                    if b == a || is_sur(b) || b > 0x10FFFF {
+                        continue;
+                    }
+                    for mid in [vec![], vec![0x61u32], vec![common], vec![0x61, common, 0x62]] {
+                        for order in 0..2 {
+                            let mut text: Vec<u32> = Vec::with_capacity(8);
+                            text.push(if order == 0 { b } else { a });
+                            text.extend_from_slice(&mid);
+                            text.push(if order == 0 { a } else { b });
+                            st.evals += 1;
+                            st.nontrivial_distinct();
+                            st.class("astral-character-and-its-low-bits-alias");
+                            if let Some((src, repl, msg)) = check_lean(enc, algo, &text, (a + order) % 2 == 1) {
+                                st.violations.push(violation(enc, src, repl, &text, msg));
+                                return;
+                            }
+                        }
+                    }
+                }
+            }
+        });
+        total.merge(st);
+        total.exhaustive.push("Big5 (every astral character of the index), gb18030 and UTF-8 (every 0x3F1st astral scalar): the character and its low-16-bit / other-plane aliases in one stream, both orders, adjacent or separated by ASCII / a common character".into());
+    }
+
     // (b1) one control / boundary character at every offset 0..=200 of an ASCII text (block-wise
     // pre-scans of the one-shot method and of the ISO-2022-JP encoder must not skip SO / SI / ESC)
     if !fw::should_stop() {
